@@ -261,13 +261,11 @@ Section Inv.
       rewrite Hwa in W. destruct W as (W1 & W2 & W3).
       unfold ConnT.after_return. cbn [t_alive negb t_want]. rewrite Hwa.
       cbn [t_peek t_hand]. cbn [want_eqb andb].
-      destruct (t_peek cr) eqn:Epk.
-      - assert (He : t_hand cr = []) by (apply W2; right; reflexivity).
-        apply inv_empty; cbn [set_flags t_retry t_hand t_want t_peek]; auto; try (intros; discriminate).
-      - destruct (empty (t_hand cr)) eqn:Ee; cbn [negb].
-        + apply empty_true in Ee.
-          apply inv_empty; cbn [t_retry t_hand t_want t_peek]; auto; try (intros; discriminate).
-        + unfold inv. cbn [kill t_retry t_hand t_alive]. split; [lia|]. split; [exact B|]. intros; discriminate. }
+      destruct (empty (t_hand cr)) eqn:Ee; cbn [negb].
+      - apply empty_true in Ee. destruct (t_peek cr) eqn:Epk.
+        + apply inv_empty; cbn [set_flags t_retry t_hand t_want t_peek]; auto; try (intros; discriminate).
+        + apply inv_empty; cbn [t_retry t_hand t_want t_peek]; auto; try (intros; discriminate).
+      - unfold inv. cbn [kill t_retry t_hand t_alive]. split; [lia|]. split; [exact B|]. intros; discriminate. }
     destruct (r_typ r =? 22)%N eqn:T22; [|apply inv_kill; exact Hcr].
     (* handshake *)
     destruct ((length data =? 0) || want_eqb (t_want cr) WCcs) eqn:Eq; [apply inv_kill; exact Hcr|].
@@ -278,19 +276,12 @@ Section Inv.
     - cbn in Eq. discriminate.
     - destruct W as (W1 & W2 & W3).
       cbn [t_peek t_hand set_hand]. cbn [want_eqb andb].
-      destruct (t_peek cr) eqn:Epk.
-      + (* inside the read-ahead call: c.hand was empty and nobody checks it now *)
-        assert (He : t_hand cr = []) by (apply W2; right; reflexivity).
-        assert (Har : t_armed cr = false) by (apply W3; reflexivity).
-        unfold inv. cbn [set_flags set_hand t_retry t_hand t_alive t_want t_armed t_peek]. rewrite He, Har. cbn [app].
-        unfold handPeak, maxPlaintext in *.
-        split; [lia|]. split; [lia|]. intros _. split; [lia|]. rewrite Ewc. split; [lia|].
-        split; [intros [F|F]; discriminate | intros; discriminate].
-      + assert (Hne : empty (t_hand cr ++ data) = false).
-        { apply Nat.eqb_neq in El. destruct (t_hand cr); destruct data; cbn [app empty length] in *; try reflexivity. lia. }
-        rewrite Hne. cbn [negb].
-        unfold inv. cbn [kill set_hand t_retry t_hand t_alive]. rewrite app_length.
-        unfold handPeak, maxPlaintext in *. split; [lia|]. split; [lia|]. intros; discriminate.
+      (* Conn.Read refuses the record, in its read loop and in its read-ahead call alike *)
+      assert (Hne : empty (t_hand cr ++ data) = false).
+      { apply Nat.eqb_neq in El. destruct (t_hand cr); destruct data; cbn [app empty length] in *; try reflexivity. lia. }
+      rewrite Hne. cbn [negb].
+      unfold inv. cbn [kill set_hand t_retry t_hand t_alive]. rewrite app_length.
+      unfold handPeak, maxPlaintext in *. split; [lia|]. split; [lia|]. intros; discriminate.
   Qed.
 
   Theorem inv_trun : forall rs (c : tconn), inv c -> inv (trun c rs).
